@@ -496,7 +496,8 @@ func (b *Builder) Unique(o interface{}, unique string) {
 	if !valid {
 		b.setErr(fmt.Errorf("%T does not support unique", o))
 	} else {
-		i.setUnique(append(i.Unique(), strings.Split(unique, " ")))
+		// names are separated by white space of any length (RFC7950 Sec 14, sep)
+		i.setUnique(append(i.Unique(), strings.Fields(unique)))
 	}
 }
 
@@ -505,7 +506,8 @@ func (b *Builder) Key(o interface{}, keys string) {
 	if !valid {
 		b.setErr(fmt.Errorf("%T does not support key, only lists do", o))
 	} else {
-		i.key = strings.Split(keys, " ")
+		// names are separated by white space of any length (RFC7950 Sec 14, sep)
+		i.key = strings.Fields(keys)
 	}
 }
 
